@@ -24,8 +24,16 @@ while i < len(argv):
     args.append(a)
   i += 1
 ctx = core.Ctx('DEV', 'quick', F)
+pre = None
+if '--pre-sat' in argv:
+  pred0, _ = panics.closure(F, args)
+  pre = {}
+  for pth in pred0:
+    b = F.bodies[pth]
+    if b.argc >= 1 and b.local_ty(1) in ('ordinals::sat::Sat', 'ordinals::Sat') and not b.n.startswith('<ordinals::sat::Sat as std::ops'):
+      pre[b.n] = {(1, ('0',)): ('i', 0, 2099999997690000 - 1, 0)}
 def go():
-  return panics.run_inventory(ctx, 'RX', args, table, partition=part)
+  return panics.run_inventory(ctx, 'RX', args, table, partition=part, pre=pre)
 if '--prof' in argv:
   import cProfile, pstats
   pr = cProfile.Profile(); pr.enable(); out, pred = go(); pr.disable()
